@@ -171,8 +171,10 @@ class Report:
             "wall_s": round(ctx.elapsed(), 2),
             "violations": nviol,
         }
-        os.makedirs(os.path.join(VERIF, "evidence"), exist_ok=True)
-        with open(os.path.join(VERIF, "evidence", f"{self.pid}.json"), "w") as f:
+        # (sweeps over seeded changes set AMRK_EVIDENCE_DIR so that they do not overwrite the evidence of the clean tree)
+        edir = os.environ.get("AMRK_EVIDENCE_DIR") or os.path.join(VERIF, "evidence")
+        os.makedirs(edir, exist_ok=True)
+        with open(os.path.join(edir, f"{self.pid}.json"), "w") as f:
             json.dump(ev, f, indent=1, default=str)
         for l in lines:
             print(l, flush=True)
